@@ -9,7 +9,7 @@ def params(tier):
     if tier == "quick":
         return dict(shapes=E.curated_shapes(), nops=3, maxdev=1, bfs_depth=4, probe_every=7, timing_depth=24)
     fam = E.family_shapes()
-    return dict(shapes=E.curated_shapes() + fam, nops=4, maxdev=2, bfs_depth=7, probe_every=11, timing_depth=30, light_names=[s["name"] for s in fam], light_nops=3, light_bfs=5)
+    return dict(shapes=E.curated_shapes() + fam, nops=4, maxdev=2, bfs_depth=8, probe_every=11, timing_depth=30, light_names=[s["name"] for s in fam], light_nops=3, light_bfs=3, light_timing=8)
 
 
 def main(tier, seed):
